@@ -133,7 +133,7 @@ def v3(ctx):
     crate = ctx.lib()
     from .c04 import MATCHER_ANCHORS
     b = mir.inline_view(crate, fn(crate, "ematch_node", "rewrite/ematch.rs"), keep=MATCHER_ANCHORS)
-    ext = [c for c in b.calls if c.callee and c.callee.name == "extend" and strip_role(b.role_of_operand(c.args[0])) == ("param", "out")]
+    ext = C.result_sinks(b, "out")
     ctx.floor("result extension sites", len(ext), 1)
     for c in ext:
         ok = False
